@@ -47,6 +47,15 @@ private:
    */
   void propagateDirection_(Graph::NodeId node);
 
+  /**
+   * Orient all the edges of the tree away from a node, whatever
+   * their current direction (needed when the tree was unrooted: its
+   * edges have just been given arbitrary directions).
+   * @param node the node to start from
+   * @param origin the neighbor we come from (the node itself at start)
+   */
+  void orientateFrom_(Graph::NodeId node, Graph::NodeId origin);
+
   // recursive function for getSubtreeNodes
   void fillSubtreeMetNodes_(std::vector<Graph::NodeId>& metNodes, Graph::NodeId localRoot) const;
 
@@ -335,11 +344,32 @@ void TreeGraphImpl<GraphImpl>::rootAt(Graph::NodeId newRoot)
   if (!isValid())
     throw Exception("TreeGraphImpl::rootAt: Tree is not Valid.");
 
+  bool wasRooted = isRooted();
   GraphImpl::makeDirected();
   // set the new root on the Graph
   GraphImpl::setRoot(newRoot);
-  // change edge direction between the new node and the former one
-  propagateDirection_(newRoot);
+  if (wasRooted)
+    // change edge direction between the new node and the former one
+    propagateDirection_(newRoot);
+  else
+    // the directions just given to the edges are arbitrary
+    orientateFrom_(newRoot, newRoot);
+}
+
+template<class GraphImpl>
+void TreeGraphImpl<GraphImpl>::orientateFrom_(Graph::NodeId node, Graph::NodeId origin)
+{
+  std::vector<Graph::NodeId> incomers = GraphImpl::getIncomingNeighbors(node);
+  for (auto incomer : incomers)
+  {
+    if (incomer != origin)
+      GraphImpl::switchNodes(incomer, node);
+  }
+  std::vector<Graph::NodeId> sons = GraphImpl::getOutgoingNeighbors(node);
+  for (auto son : sons)
+  {
+    orientateFrom_(son, node);
+  }
 }
 
 template<class GraphImpl>
